@@ -193,10 +193,22 @@ func loadKnown() []knownFinding {
 }
 
 func sigMatch(pat, sig string) bool {
-	if strings.HasSuffix(pat, "*") {
-		return strings.HasPrefix(sig, strings.TrimSuffix(pat, "*"))
+	parts := strings.Split(pat, "*")
+	if len(parts) == 1 {
+		return pat == sig
 	}
-	return pat == sig
+	if !strings.HasPrefix(sig, parts[0]) {
+		return false
+	}
+	sig = sig[len(parts[0]):]
+	for i := 1; i < len(parts)-1; i++ {
+		j := strings.Index(sig, parts[i])
+		if j < 0 {
+			return false
+		}
+		sig = sig[j+len(parts[i]):]
+	}
+	return strings.HasSuffix(sig, parts[len(parts)-1])
 }
 
 type workerResult struct {
